@@ -227,8 +227,78 @@ pub fn main(args: &[String]) {
                 );
             }
         }
+        Some("v1lines") => {
+            // near-valid full lines: every combination of field alternatives, separators and endings
+            let level: usize = args.get(1).and_then(|s| s.parse().ok()).unwrap_or(1);
+            let st = Stats {
+                evaluated: Default::default(),
+                nontrivial: Default::default(),
+                viol: Mutex::new(Vec::new()),
+            };
+            let kws: &[&[u8]] = &[b"PROXY", b"PROX", b"proxy"];
+            let protos: &[&[u8]] = &[b"TCP4", b"TCP6", b"UNKNOWN", b"TCP", b""];
+            let addrs: &[&[u8]] = if level >= 2 {
+                &[b"1.2.3.4", b"255.255.255.255", b"::1", b"1:2:3:4:5:6:7:8", b"::ffff:1.2.3.4", b"01.2.3.4", b"1.2.3", b"", b"x", b"1::2::3", b"\xc3\xa9"]
+            } else {
+                &[b"1.2.3.4", b"::1", b"::ffff:1.2.3.4", b"01.2.3.4", b"", b"x"]
+            };
+            let ports: &[&[u8]] = if level >= 2 {
+                &[b"0", b"80", b"65535", b"65536", b"+1", b"01", b"", b"-1", b"8x"]
+            } else {
+                &[b"0", b"65535", b"65536", b"+1", b"01", b""]
+            };
+            let seps: &[&[u8]] = &[b" ", b"  ", b"\r"];
+            let ends: &[&[u8]] = &[b"\r\n", b"\r", b"\n", b" \n", b"", b"\rX", b"\r\r", b"\r\xc3\xa9", b"\r\nGET", b" \r\n"];
+            std::thread::scope(|sc| {
+                for kw in kws {
+                    for proto in protos {
+                        let st = &st;
+                        sc.spawn(move || {
+                            let mut buf: Vec<u8> = Vec::with_capacity(160);
+                            for sa in addrs {
+                                for da in addrs {
+                                    for sp in ports {
+                                        for dp in ports {
+                                            for sep in seps {
+                                                for end in ends {
+                                                    buf.clear();
+                                                    buf.extend_from_slice(kw);
+                                                    buf.extend_from_slice(b" ");
+                                                    buf.extend_from_slice(proto);
+                                                    buf.extend_from_slice(b" ");
+                                                    buf.extend_from_slice(sa);
+                                                    buf.extend_from_slice(sep);
+                                                    buf.extend_from_slice(da);
+                                                    buf.extend_from_slice(b" ");
+                                                    buf.extend_from_slice(sp);
+                                                    buf.extend_from_slice(b" ");
+                                                    buf.extend_from_slice(dp);
+                                                    buf.extend_from_slice(end);
+                                                    check(st, &buf);
+                                                }
+                                            }
+                                        }
+                                    }
+                                }
+                            }
+                        });
+                    }
+                }
+            });
+            for l in st.viol.lock().unwrap().iter() {
+                println!("{}", l);
+            }
+            for (i, p) in PROPS.iter().enumerate() {
+                println!(
+                    "COUNT prop={} evaluated={} nontrivial={}",
+                    p,
+                    st.evaluated[i].load(Ordering::Relaxed),
+                    st.nontrivial[i].load(Ordering::Relaxed)
+                );
+            }
+        }
         _ => {
-            eprintln!("usage: pppharness sweep v1tokens <k>");
+            eprintln!("usage: pppharness sweep v1tokens <k> | v1lines <level>");
             std::process::exit(2);
         }
     }
